@@ -11,7 +11,14 @@ EXTENDS SeqApi, Json
 
 CONSTANTS Family,   \* "text" | "array" | "map" | "xml"
           Unit,     \* "bytes" | "utf16"
-          MaxOps
+          MaxOps,
+          Shape     \* <<>> = any call at every step; otherwise Shape[i] = the calls allowed at step i (a "shape" of programs)
+
+NoShape == <<>>
+(* formatting shapes: one insertion, two (possibly overlapping / overriding) format calls, then any call *)
+AnyText == {"tins", "temb", "tpush", "tfmt", "tdel"}
+ShapeFmt4 == << {"tins"}, {"tfmt"}, {"tfmt"}, AnyText >>
+ShapeFmt5 == << {"tins"}, {"tfmt"}, {"tdel", "tfmt"}, {"tfmt", "tins"}, AnyText >>
 
 VARIABLES D, ops, nid, hist
 vars == <<D, ops, nid, hist>>
@@ -62,6 +69,7 @@ NestedInit(kind, n) ==
 
 (* one step: a valid call c on target tg = <<token, path>> creating `cells` / nested containers `nc` *)
 Do(tg, c, cells, nc, extra) ==
+  /\ (Shape = <<>> \/ c.op \in Shape[ops + 1])
   /\ CallValid(D, tg[1], c, Unit)
   /\ D' = LET D2 == ApplyCall(D, tg[1], c, cells, nc, Unit)
               reach == ReachFrom(D2, Roots, 12)
